@@ -34,6 +34,9 @@ class Facts:
         self.structs = d["structs"]
         self.impls = d["impls"]
         self.traits = d["traits"]
+        # functions that do not exist at the pinned commit are transparent (see inline.py); identity on the pinned tree
+        import inline
+        self.inlined, self.transparent = inline.apply(self.fns)
         self._bodies = {}
         self._by_name = defaultdict(list)
         for f in self.fns:
@@ -45,6 +48,42 @@ class Facts:
                 self.children[f["parent"]].append(f["id"])
         self._defgraph = None
         self._trait_impl_index = None
+
+    def deep_body(self, f, only=None):
+        """Body of f with its direct calls to crate-local functions inlined (inline.py, depth 3) -- for rules about the
+        shape of an expression, which must not depend on whether a sub-expression sits behind an accessor.
+        `only`: regex restricting which callees are inlined."""
+        import inline, copy
+        key = ("deep", f["id"], only)
+        if key not in self._bodies:
+            g = copy.deepcopy(f)
+            ids = {x["id"] for x in self.fns if "blocks" in x and x.get("kind") != "closure" and x["id"] != f["id"] and (only is None or re.search(only, x["name"]))}
+            inline.inline_into(self.fns, g, ids)
+            self._bodies[key] = Body(self, g)
+        return self._bodies[key]
+
+    def ret_fields(self, t, _depth=0):
+        """names of the fields the result of a call to a crate-local function is read from (summary of the callee's
+        return value, two levels deep): lets a provenance rule see through an accessor such as `self.data_size()`"""
+        c = t.get("callee") or {}
+        gid = c.get("rfn") if c.get("rkind") == "item" and c.get("rfn") is not None else (c.get("def_fn") if "trait" not in c else None)
+        if gid is None:
+            return ()
+        if not hasattr(self, "_ret_fields"):
+            self._ret_fields = {}
+        if gid in self._ret_fields:
+            return self._ret_fields[gid] or ()
+        self._ret_fields[gid] = None  # in progress (recursion guard)
+        g = self.fns[gid]
+        out = ()
+        if "blocks" in g and len(g["blocks"]) <= 60:
+            try:
+                o = self.body(g).origins(0)
+                out = tuple(sorted({x[1] for x in o if x[0] == "field"}))
+            except AnchorLost:
+                out = ()
+        self._ret_fields[gid] = out
+        return out
 
     # ---- lookup -------------------------------------------------------------------
     def find(self, name=None, impl_self=None, item=None, trait=None, closure=None, kind=None, regex=None):
@@ -302,20 +341,40 @@ def op_const_val(op):
 
 
 def op_const_deep(b, op, depth=0):
-    """constant value of an operand, looking through single-definition copies and int casts"""
+    """constant value of an operand, looking through single-definition copies, int casts and arithmetic on
+    constants (`1 + MAX_LEN as usize`, `SIZE - 4`): a literal and a named constant expression of the same value
+    are the same thing to a rule"""
     v = op_const_val(op)
-    if v is not None or depth > 6:
+    if v is not None or depth > 8:
         return v
-    l = op_local(op)
-    if l is None:
+    pl = op_place(op)
+    if pl is None:
         return None
-    ds = b.defs().get(l, [])
-    if len(ds) != 1 or ds[0][0] != "stmt" or ds[0][3]["k"] != "assign":
+    proj = pl.get("p") or []
+    ds = b.defs().get(pl["l"], [])
+    if len(ds) != 1 or ds[0][0] != "stmt" or ds[0][3]["k"] != "assign" or ds[0][3]["lhs"].get("p"):
         return None
     rv = ds[0][3]["rv"]
+    if proj:
+        # (a op b).0 of a checked operation
+        if len(proj) == 1 and isinstance(proj[0], dict) and proj[0].get("f") == 0 and rv["k"] == "bin" and rv["op"].endswith("WithOverflow"):
+            return _fold(rv["op"][:-len("WithOverflow")], op_const_deep(b, rv["a"], depth + 1), op_const_deep(b, rv["b"], depth + 1))
+        return None
     if rv["k"] in ("use", "cast"):
         return op_const_deep(b, rv["op"], depth + 1)
+    if rv["k"] == "bin" and not rv["op"].endswith("WithOverflow"):
+        return _fold(rv["op"], op_const_deep(b, rv["a"], depth + 1), op_const_deep(b, rv["b"], depth + 1))
     return None
+
+
+def _fold(op, x, y):
+    if not isinstance(x, int) or not isinstance(y, int) or isinstance(x, bool) or isinstance(y, bool):
+        return None
+    try:
+        return {"Add": x + y, "Sub": x - y, "Mul": x * y, "Shl": x << y, "Shr": x >> y, "BitAnd": x & y, "BitOr": x | y,
+                "BitXor": x ^ y, "AddUnchecked": x + y, "SubUnchecked": x - y, "MulUnchecked": x * y}.get(op) if y < 256 or op not in ("Shl", "Shr") else None
+    except (ValueError, OverflowError):
+        return None
 
 
 def place_fields(pl):
@@ -590,6 +649,9 @@ class Body:
                     if through_calls and not (stop_call and stop_call(t)):
                         for a in t["args"]:
                             push_op(a)
+                        # accessor summaries: fields of the receiver that the (crate-local) callee's result is read from
+                        for n in self.F.ret_fields(t):
+                            out.add(("field", n))
                 else:
                     _, bb, j, s = d
                     if s["k"] != "assign":
@@ -732,6 +794,123 @@ class Body:
         """for a switch block: (origins of the discriminant, vals, targets, otherwise)"""
         t = self.blocks[bb]["t"]
         return (self.origins(t["op"]), t["vals"], t["targets"], t["otherwise"])
+
+    # ---- conditional constant propagation ---------------------------------------------
+    def explore(self, assume_locals=None, assume_discr=None, assume_calls=None, start=0, avoid=(), max_states=60000):
+        """Path-sensitive conditional constant propagation under assumptions (a classic dataflow analysis, made
+        path-sensitive by keeping one abstract environment per path instead of joining): returns (blocks reachable,
+        edges taken). `assume_locals` {local: bool|int} fixes parameters; `assume_discr` {regex on the enum path:
+        discriminant} fixes every `discriminant(place)` of that enum type; `assume_calls` {regex on the callee:
+        value} fixes the result of such calls. Only scalar locals assigned from constants, copies, `!`, comparisons
+        and `&`/`|` of known values are tracked; anything else is unknown (both arms are followed). A local whose
+        address is taken mutably is never tracked. Falls back to plain reachability beyond max_states."""
+        assume_locals = dict(assume_locals or {})
+        assume_discr = assume_discr or {}
+        assume_calls = assume_calls or {}
+        escaped = set()
+        for blk in self.blocks:
+            for st in blk["s"]:
+                if st["k"] == "assign" and st["rv"]["k"] in ("ref", "addr_of", "rawptr") and st["rv"].get("bk", "mut") != "shared" and not st["rv"]["pl"].get("p"):
+                    escaped.add(st["rv"]["pl"]["l"])
+        avoid = set(avoid)
+
+        def val(op, env):
+            c = op_const(op)
+            if c is not None:
+                v = c.get("val")
+                return v if isinstance(v, (bool, int)) else None
+            l = op_local(op)
+            return env.get(l) if l is not None else None
+
+        def ev(rv, env):
+            k = rv["k"]
+            if k == "use":
+                return val(rv["op"], env)
+            if k == "cast":
+                v = val(rv["op"], env)
+                return int(v) if isinstance(v, (bool, int)) and not isinstance(v, bool) else (int(v) if isinstance(v, bool) else None)
+            if k == "un":
+                v = val(rv["a"], env)
+                if rv.get("op") == "Not" and isinstance(v, bool):
+                    return not v
+                return None
+            if k == "bin":
+                a, b_ = val(rv["a"], env), val(rv["b"], env)
+                op = rv["op"]
+                if a is None or b_ is None:
+                    # short circuits of & and |
+                    for x in (a, b_):
+                        if op == "BitAnd" and x is False:
+                            return False
+                        if op == "BitOr" and x is True:
+                            return True
+                    return None
+                try:
+                    return {"Eq": a == b_, "Ne": a != b_, "Lt": a < b_, "Le": a <= b_, "Gt": a > b_, "Ge": a >= b_,
+                            "BitAnd": (a and b_) if isinstance(a, bool) else (a & b_), "BitOr": (a or b_) if isinstance(a, bool) else (a | b_),
+                            "BitXor": (a != b_) if isinstance(a, bool) else (a ^ b_)}.get(op)
+                except TypeError:
+                    return None
+            if k == "discr":
+                of = rv.get("of", "")
+                for pat, v in assume_discr.items():
+                    if re.search(pat, of):
+                        return v
+                return None
+            return None
+
+        seen = set()
+        reach, edges = set(), set()
+        work = [(start, tuple(sorted((l, v) for l, v in assume_locals.items() if l not in escaped)))]
+        while work:
+            if len(seen) > max_states:
+                r = self.reachable(start, avoid=avoid)
+                return r, {(x, y) for x in r for y in self.succ[x] if y in r}
+            bb, envt = work.pop()
+            if (bb, envt) in seen or bb in avoid:
+                continue
+            seen.add((bb, envt))
+            reach.add(bb)
+            env = dict(envt)
+            blk = self.blocks[bb]
+            for st in blk["s"]:
+                if st["k"] not in ("assign", "setdiscr"):
+                    continue
+                l = st["lhs"]["l"]
+                if st["lhs"].get("p") or st["k"] == "setdiscr" or l in escaped:
+                    if not (st["lhs"].get("p") and "*" in st["lhs"]["p"]):
+                        env.pop(l, None)
+                    continue
+                v = ev(st["rv"], env)
+                if v is None:
+                    env.pop(l, None)
+                else:
+                    env[l] = v
+            t = blk["t"]
+            k = t["k"]
+            nxt = []
+            if k == "switch":
+                v = val(t["op"], env)
+                if v is not None:
+                    iv = int(v)
+                    nxt = [t["targets"][t["vals"].index(iv)]] if iv in t["vals"] else [t["otherwise"]]
+                else:
+                    nxt = list(self.succ[bb])
+            elif k == "call":
+                d = t["dest"]
+                if not d.get("p"):
+                    env.pop(d["l"], None)
+                    for pat, v in assume_calls.items():
+                        if call_is(t, pat) and d["l"] not in escaped:
+                            env[d["l"]] = v
+                nxt = list(self.succ[bb])
+            else:
+                nxt = list(self.succ[bb])
+            e2 = tuple(sorted(env.items()))
+            for y in nxt:
+                edges.add((bb, y))
+                work.append((y, e2))
+        return reach, edges
 
     def local_named(self, name):
         r = [i for i, l in enumerate(self.locals) if l.get("name") == name]
